@@ -362,8 +362,8 @@ def modifyFile (t : Tree) (p : Path) (f : Bytes → Bytes) : Tree :=
   | _ => t
 
 /-- `write_empty_file_block_at`: wipe `n << 7` bytes from `off`, seek back, five `i32`
-(128, 0, 0, `n − 1`, 0).  `none` = `(n − 1).try_into::<i32>().unwrap()` panics (after the wipe —
-the tree is returned by the caller as it is then; not needed inside C03's quantifier). -/
+(128, 0, 0, `n − 1`, 0).  `none` = the block count is rejected (`n − 1` does not fit an `i32`):
+`ParseError` before the file is touched (fix C17-10; outside C03's quantifier). -/
 def emptyBlockWrite (old : Bytes) (off : Nat) (n : UInt32) : Option Bytes :=
   if n = 0 ∨ 2 ^ 31 < n.toNat then none
   else
@@ -381,7 +381,7 @@ def applyChunk (ti : Option UInt8) (t : Tree) (data : Bytes) : Chunk → Option 
   | .targetInfo pl => (some pl, t, none)
   | .addData m sub f off del d =>
     match ti with
-    | none => (ti, t, some .panic)
+    | none => (ti, t, some .parseError)   -- `target_info.ok_or(ParseError)?` (fix C17-08)
     | some pl =>
       match mkdirAll t [] (repoDir sub) with
       | none => (ti, t, some .ioError)
@@ -395,7 +395,7 @@ def applyChunk (ti : Option UInt8) (t : Tree) (data : Bytes) : Chunk → Option 
             writeAt (writeAt old off.toNat d) (off.toNat + d.length) (zeros del.toNat)), none)
   | .deleteData m sub f off n =>
     match ti with
-    | none => (ti, t, some .panic)
+    | none => (ti, t, some .parseError)   -- `target_info.ok_or(ParseError)?` (fix C17-08)
     | some pl =>
       let p := repoDir sub ++ [datFile pl m sub f]
       -- no create_dir_all here
@@ -406,11 +406,11 @@ def applyChunk (ti : Option UInt8) (t : Tree) (data : Bytes) : Chunk → Option 
         | some (.file old) =>
           match emptyBlockWrite old off.toNat n with
           | some new => (ti, set t2 p (.file new), none)
-          | none => (ti, modifyFile t2 p (fun old => writeAt old off.toNat (zeros (n.toUInt64 <<< 7).toNat)), some .panic)
+          | none => (ti, t2, some .parseError)   -- block count validated before the file is touched (fix C17-10)
         | _ => (ti, t2, some .ioError)
   | .expandData m sub f off n =>
     match ti with
-    | none => (ti, t, some .panic)
+    | none => (ti, t, some .parseError)   -- `target_info.ok_or(ParseError)?` (fix C17-08)
     | some pl =>
       match mkdirAll t [] (repoDir sub) with
       | none => (ti, t, some .ioError)
@@ -423,11 +423,11 @@ def applyChunk (ti : Option UInt8) (t : Tree) (data : Bytes) : Chunk → Option 
           | some (.file old) =>
             match emptyBlockWrite old off.toNat n with
             | some new => (ti, set t2 p (.file new), none)
-            | none => (ti, modifyFile t2 p (fun old => writeAt old off.toNat (zeros (n.toUInt64 <<< 7).toNat)), some .panic)
+            | none => (ti, t2, some .parseError)   -- block count validated before the file is touched (fix C17-10)
           | _ => (ti, t2, some .ioError)
   | .headerUpdate isIdx hk m sub f d =>
     match ti with
-    | none => (ti, t, some .panic)
+    | none => (ti, t, some .parseError)   -- `target_info.ok_or(ParseError)?` (fix C17-08)
     | some pl =>
       match mkdirAll t [] (repoDir sub) with
       | none => (ti, t, some .ioError)
@@ -482,7 +482,7 @@ def applyLoop (inflate : Bytes → Nat → Option Bytes) :
           | none => (.ioError, t)
           | some t1 =>
             match readBlocks inflate (sb.length + 1) sb size.toNat [] with
-            | none => (.panic, t1)
+            | none => (.parseError, t1)   -- a bad data block is a parse error (fix C17-09)
             | some (data, s') =>
               match applyChunk ti t data c with
               | (ti', t', none) => applyLoop inflate fuel (s'.drop 4) ti' t'
